@@ -3,12 +3,20 @@
  * Oracle: BFS depth on geometric adjacency. */
 #include "vf.h"
 
+#include <fenv.h>
+
+/* API calls of judge_pair run under g_round (the caller's floating-point rounding mode is part of the environment; the
+ * unfolding uses lround() on doubles); the oracle always runs under FE_TONEAREST */
+static int g_round = FE_TONEAREST;
+
 static vf_map dist;
 static int64_t n_pairs, n_succ, n_fail, n_sym;
 
 static void judge_pair(H3Index a, H3Index b, int64_t bfs /* -1 unknown */, uint64_t okey) {
     int64_t d = -7, d2 = -7;
+    if (g_round != FE_TONEAREST) fesetround(g_round);
     H3Error e = gridDistance(a, b, &d);
+    if (g_round != FE_TONEAREST) fesetround(FE_TONEAREST);
     n_pairs++;
     if (e > 15) vf_violation("bad-code", "gridDistance", okey ^ vf_mix(b), "", "rc=%u", e);
     if (!e) {
@@ -18,7 +26,9 @@ static void judge_pair(H3Index a, H3Index b, int64_t bfs /* -1 unknown */, uint6
             snprintf(spec, sizeof spec, "pair %016" PRIx64 " %016" PRIx64 " %" PRId64, a, b, bfs);
             vf_violation_spec(spec, "distance", "gridDistance", okey ^ vf_mix(b), "", "gridDistance(%016" PRIx64 ", %016" PRIx64 ")=%" PRId64 " but the minimum number of neighbour steps is %" PRId64, a, b, d, bfs);
         }
+        if (g_round != FE_TONEAREST) fesetround(g_round);
         H3Error e2 = gridDistance(b, a, &d2);
+        if (g_round != FE_TONEAREST) fesetround(FE_TONEAREST);
         if (!e2) {
             n_sym++;
             if (d2 != d) {
@@ -110,7 +120,9 @@ static void case_origin(H3Index o, int R, int do_ij) {
         judge_pair(o, order[i], bd, key);
         if (!do_ij) continue;
         CoordIJ ij = {0x7fffffff, 0x7fffffff};
+        if (g_round != FE_TONEAREST) fesetround(g_round);
         H3Error e = cellToLocalIj(o, order[i], 0, &ij);
+        if (g_round != FE_TONEAREST) fesetround(FE_TONEAREST);
         vf_add("ij.to_calls", 1);
         if (e) {
             vf_add("ij.to_failed", 1);
@@ -118,7 +130,9 @@ static void case_origin(H3Index o, int R, int do_ij) {
         }
         vf_map_put(&ijmap, order[i], (int64_t)(((uint64_t)(uint32_t)ij.i << 32) | (uint32_t)ij.j), NULL);
         H3Index back = 0;
+        if (g_round != FE_TONEAREST) fesetround(g_round);
         e = localIjToCell(o, &ij, 0, &back);
+        if (g_round != FE_TONEAREST) fesetround(FE_TONEAREST);
         if (!e) {
             vf_add("ij.roundtrips", 1);
             vf_out_cell("localIjToCell", back, VF_RES(o));
@@ -269,6 +283,22 @@ static void run(void) {
         }
     }
     vf_buf_free(d);
+    /* the same judgements with the API calls made under the three directed rounding modes */
+    {
+        static const int modes[3] = {FE_UPWARD, FE_DOWNWARD, FE_TOWARDZERO};
+        int64_t before = n_pairs;
+        for (int m = 0; m < 3; m++) {
+            g_round = modes[m];
+            for (int res = 0; res <= 15; res++) {
+                int n = vf_special_seeds(res, 1, seeds, 600);
+                for (int i = 0; i < n && i < 14; i++)
+                    if (VF_MINE(idx++)) case_origin(seeds[i], res <= 1 ? 2 : VF_T(4, 7), 1);
+                for (int i = 0; i < VF_T(2, 12); i++) case_origin(vf_rand_cell(&r, res), res <= 1 ? 2 : VF_T(3, 5), 1);
+            }
+        }
+        g_round = FE_TONEAREST;
+        vf_add("pairs.under_directed_rounding", n_pairs - before);
+    }
     vf_add("pairs", n_pairs);
     vf_add("pairs.success", n_succ);
     vf_add("pairs.failed", n_fail);
